@@ -406,6 +406,17 @@ class AbsExec:
                                 if isinstance(av, Ref) and aop.get("k") in ("copy", "move") and not aop["place"]["p"] \
                                         and fr.body.locals[aop["place"]["l"]]["ty"].startswith("&mut"):
                                     self._write_into(av.frame, av.local, list(av.proj), self.domain.havoc_value(self, fr.body.locals[aop["place"]["l"]]["ty"]) if hasattr(self.domain, "havoc_value") else TOP)
+                        if len(rs) > 1 and getattr(self.domain, "fork_on_inline", False) and t["target"] is not None:
+                            # path-sensitive domains: the caller goes on once per callee path, with that path's assumptions
+                            for v, cfr in rs:
+                                fr2 = Frame(fr.body, [])
+                                fr2.env = _clone_env(fr.env, fr, fr2)
+                                self.domain.merge_callee(self, fr2, cfr)
+                                if fr2.env.get("__dead"):
+                                    continue
+                                self.write_place(fr2, t["dest"], _clone_val(v, fr, fr2))
+                                self._explore(fr2, t["target"], results, visiting, depth + 1)
+                            return
                         val = vals[0] if vals and all(_same(v, vals[0]) for v in vals) else (self.domain.join(self, vals) if hasattr(self.domain, "join") and vals else TOP)
                     elif cb is not None and (fk.d in stack or fk.d == getattr(self, "root_path", None)) and hasattr(self.domain, "recursive_call"):
                         val = self.domain.recursive_call(self, fk, args, t, fr)
@@ -473,6 +484,8 @@ class AbsExec:
                             self.domain.refine(self, fr2, d, truth)
                     if hasattr(self.domain, "on_fork"):
                         self.domain.on_fork(self, fr2, t, d, sval)
+                    if fr2.env.get("__dead"):
+                        continue          # the refinement contradicts what this path already assumed
                     self._explore(fr2, s, results, visiting | {key}, depth + 1)
                 return
             return
@@ -645,11 +658,21 @@ def int_builtin(ex, fk, args):
                 return Tup([(x - y) & mask, x < y])
             if n == "abs_diff":
                 return abs(x - y)
+    if n in ("from", "into") and len(a) == 1 and ("core::convert::From" in (fk.get("trait") or "") or "core::convert::Into" in (fk.get("trait") or "") or d.startswith("core::convert::num")):
+        if re_int_conv(fk.i) or d.startswith("core::convert::num::<impl core::convert::From<"):
+            return a[0]
     if d in ("core::cmp::min", "core::cmp::Ord::min") and len(a) == 2:
         return min(a)
     if d in ("core::cmp::max", "core::cmp::Ord::max") and len(a) == 2:
         return max(a)
     return NotImplemented
+
+
+def re_int_conv(inst):
+    """`<usize as From<u8>>::from`-style lossless integer conversions"""
+    import re
+    ints = r"(?:u8|u16|u32|u64|u128|usize|i8|i16|i32|i64|i128|isize|bool)"
+    return re.match(r"^<%s as core::convert::(?:From|Into)<%s>>::(?:from|into)$" % (ints, ints), inst or "") is not None
 
 
 def same_module_inline(F, root_path):
